@@ -21,6 +21,16 @@ def main(tier, replay=None):
     if res is not None:
         chk.cov["layer_I_lead"] = {"model": "LiteralOrd = TRUE (stream ordinal := cstep at a restart)",
                                    "tlc_verdict": "OrdinalsFresh violated" if not res["ok"] else "no collision"}
+    # the same for the rule the code had between fixes 36c2f14 and fe85e87 (ordinal := cstep + jobs in flight): with two restarts TLC
+    # produces the history of the former known finding; the rule of the current code (the count is part of the restart record) holds
+    two = {"N": 3, "Workers": 2, "Steps": 4, "MaxRestarts": 2, "MoreSteps": 0, "MaxPn": 14}
+    res2 = S.model_check(chk, sc.work, "N3W2S4_formula_ordinals", dict(two, FormulaOrd=True), ["OrdinalsFresh"], [], required=(), expect_violation=True, timeout=3000)
+    if res2 is not None:
+        chk.cov["layer_I_lead_2"] = {"model": "FormulaOrd = TRUE (stream ordinal := cstep + jobs in flight at a restart), two restarts",
+                                     "tlc_verdict": "OrdinalsFresh violated" if not res2["ok"] else "no collision"}
+        if res2["ok"]:
+            chk.machinery("the Layer I ordinal rule 'cstep + jobs in flight' was expected to be refuted with two restarts")
+    S.model_check(chk, sc.work, "N3W2S4_two_restarts", two, ["OrdinalsFresh", "OrdinalsDistinct"], [], required=req, timeout=3000)
     if not q:
         S.model_check(chk, sc.work, "N4W2S3_restart", {"N": 4, "Workers": 2, "Steps": 3, "MaxRestarts": 1, "MoreSteps": 1, "MaxPn": 14}, INV, [], required=req, timeout=3400)
     # families of runs that share a seed: other worker counts, other completion orders, restarts
